@@ -60,6 +60,9 @@ def check(repo, col, tier):
     # a network is a disjoint union: the generic sparse system needs a row for every compartment, also for a point cell listed last
     col.rule("R-C12-dimension", "the sparse system of a network has a row for every compartment and branch point", 3)
     c01_solver._dimension(repo, col, "R-C12-dimension")
+    # siblings of different lengths in either order: every band of the custom solver is scattered at the PADDED row of its compartment
+    col.rule("R-C12-assembly", "padded solver rows are identity rows; real rows carry the backward-Euler entries at their padded positions", 8)
+    c01_solver._assembly_jaxley(repo, col, "R-C12-assembly")
     from . import c01
     col.rule("R-C12-layout", "every compartment's row is the one its neighbours' couplings point to (padded layout)", 8)
     c01._layout(repo, col, "R-C12-layout")
